@@ -342,3 +342,65 @@ example : SubOpts.unpack 22 = .ok (SubOpts.mk 2 true false 1) := rfl
 example : Spec.reasonDefined 14 4 = true ∧ Spec.reasonDefined 2 4 = false := by decide
 
 end Paho
+
+namespace Paho
+open Paho.Props in
+/-- `clear()` leaves no property behind: whatever the object held (and whatever was packed before), it then packs to the
+empty property block, the single byte 0 -/
+theorem c17_clear_pack (p : Props) : (p.clear).pack = .ok [0] := by
+  have hb : ∀ names, packBody p.clear names = .ok [] := by
+    intro names
+    induction names with
+    | nil => rfl
+    | cons n rest ih =>
+      obtain ⟨_, i⟩ := n
+      simp only [packBody, getAttr, clear, List.lookup]
+      exact ih
+  unfold pack
+  rw [hb]
+  have hv : vbiEnc (((0 : Nat)) : Int) = .ok [0] := by
+    rw [PropsLemmas.vbiEnc_nat 0 (by omega)]; rfl
+  simp only [bind, Except.bind, List.length_nil, pure, Except.pure, List.append_nil, hv]
+
+open Paho.Props in
+/-- `del props.<name>` succeeds exactly when the property is set; afterwards it is not set and every other property is
+untouched -/
+theorem c17_del (p p' : Props) (name : String) (h : p.delAttr name = some p') :
+    ∃ i, idOfName name = some i ∧ (p.getAttr i).isSome ∧ p'.getAttr i = none ∧
+      ∀ j, j ≠ i → p'.getAttr j = p.getAttr j := by
+  unfold delAttr at h
+  cases hn : idOfName name with
+  | none => simp [hn] at h
+  | some i =>
+    simp only [hn] at h
+    by_cases hs : (p.getAttr i).isSome
+    · simp only [hs, if_true, Option.some.injEq] at h
+      subst h
+      refine ⟨i, rfl, hs, ?_, ?_⟩
+      · unfold getAttr
+        induction p.attrs with
+        | nil => rfl
+        | cons kv rest ih =>
+          by_cases hk : kv.1 = i
+          · simp [List.filter, hk, ih]
+          · have : (kv.1 != i) = true := by simpa using hk
+            simp only [List.filter, this, List.lookup]
+            have : (i == kv.1) = false := by rw [beq_eq_false_iff_ne]; exact fun h => hk h.symm
+            simp only [this]; exact ih
+      · intro j hj
+        unfold getAttr
+        induction p.attrs with
+        | nil => rfl
+        | cons kv rest ih =>
+          by_cases hk : kv.1 = i
+          · have hjk : (j == kv.1) = false := by rw [beq_eq_false_iff_ne, hk]; exact hj
+            have hji : (j == i) = false := by rw [beq_eq_false_iff_ne]; exact hj
+            simp only [List.filter, hk, bne_self_eq_false, List.lookup, hji]
+            exact ih
+          · have : (kv.1 != i) = true := by simpa using hk
+            simp only [List.filter, this, List.lookup]
+            cases hjk : (j == kv.1) with
+            | true => rfl
+            | false => exact ih
+    · simp [hs] at h
+end Paho
